@@ -154,9 +154,9 @@ def klex_suite(label, kinds, defs, covers=(), configs=((),), configs_quick=None,
                                quick=(configs_quick is None or f in configs_quick)))
     return suites
 
-SPEC_KINDS = ('spec', 'specc', 'ctx', 'skel', 'skelc')
+SPEC_KINDS = ('spec', 'specc', 'ctx', 'ctxc', 'skel', 'skelc')
 BYTE_DEFS = ['B1', 'B2', 'B3', 'B4', 'B5', 'B6', 'B7', 'E1']
-SKIP_DEFS = ['S1', 'S2']
+SKIP_DEFS = ['S1', 'S2', 'S3']
 STR_DEFS = ['U1', 'U2', 'E2']
 BOUND_NOTE = ('corpus definitions %s; inputs: fully symbolic bytes up to the listed length (spec_*), or a concrete context with '
               '1-3 symbolic bytes (ctx_*), or skip skeletons (skel_*); one next() per harness from a concrete start; '
@@ -204,7 +204,7 @@ PLAN = {
     'C03': dict(
         level='model_checking', engine='verus+kani',
         verus=[('v_src', BOTH)],
-        kani=klex_suite('K-lex progress and tiling', SPEC_KINDS, ['B1', 'B2', 'B5', 'E1', 'S1', 'S2', 'U1', 'Q1', 'O2'],
+        kani=klex_suite('K-lex progress and tiling', SPEC_KINDS, ['B1', 'B2', 'B5', 'E1', 'S1', 'S2', 'S3', 'U1', 'Q1', 'O2'],
                         covers=['end of input reached', 'token produced', 'token after a skipped region'],
                         bounded=BOUND_NOTE % 'B1, B2, B5, E1, S1, S2, U1, Q1, O2'),
         technique='Verus proof that Iterator::next tiles the input for every lex satisfying the trait contract LEX; bounded model checking (Kani) that derived lex impls satisfy LEX',
@@ -244,7 +244,7 @@ PLAN = {
     ),
     'C06': dict(
         level='model_checking', engine='kani',
-        kani=klex_suite('K-lex both code generators', SPEC_KINDS, ['B1', 'B2', 'B4', 'B5', 'E1', 'S2', 'K1', 'U1'],
+        kani=klex_suite('K-lex both code generators', SPEC_KINDS, ['B1', 'B2', 'B4', 'B5', 'E1', 'S2', 'S3', 'K1', 'U1'],
                         covers=['token produced', 'error produced'], configs=((), ('state_machine_codegen',)),
                         bounded=BOUND_NOTE % 'B1, B2, B4, B5, E1, S2, K1, U1 under the tail-call and the state-machine generator'),
         technique='bounded model checking (Kani/CBMC): the same harnesses against one deterministic specification under both code generators',
@@ -290,7 +290,7 @@ PLAN = {
     'C12': dict(
         level='model_checking', engine='verus+kani',
         verus=[('v_src', BOTH)],
-        kani=[KSRC_BOUNDARY] + klex_suite('K-lex str vs byte mode', ('modes',), ['U1', 'U2'],
+        kani=[KSRC_BOUNDARY] + klex_suite('K-lex str vs byte mode', ('modes',), ['U1', 'U2', 'M3'],
                         covers=['modes: token', 'modes: error'], quick_per_def=8,
                         bounded='relational: U1/U2 in str mode vs utf8 = false twins over valid UTF-8 contexts with symbolic bytes'),
         technique='Verus proof that byte sources never round (find_boundary identity, is_boundary = index <= len); relational bounded model checking (Kani) of str/bytes twins',
@@ -345,7 +345,7 @@ PLAN = {
     'C18': dict(
         level='model_checking', engine='kani',
         kani=[dict(s, build_failure_is_violation=True) for s in
-              klex_suite('K-lex argument order', ('twin',) + SPEC_KINDS, ['O1', 'O2'],
+              klex_suite('K-lex argument order', ('twin',) + SPEC_KINDS, ['O1', 'O2', 'O3'],
                          covers=['twins: token', 'twins: error'], quick_per_def=10,
                          bounded='relational, sampled: definitions O1 (token/regex/skip arguments) and O2 (one combined #[logos(..)] attribute) vs twins with permuted arguments (O1A, O1B, O2A); a permutation the derive rejects fails the build of the corpus crate and is reported as a violation')],
         technique='relational bounded model checking (Kani) of definitions whose attribute arguments are permuted; build outcome of the corpus crate',
